@@ -42,7 +42,8 @@ def treewriters(run, fx):
         else:
             run.held('TREEWRITERS', inst, '', 'written only by %s' % sorted(ws), False)
     setters = {
-        'graphite2::Slot::attachTo': {'graphite2::Segment::freeSlot', 'graphite2::Slot::setAttr'},
+        # PUT_COPY may only CLEAR the link, and only when the registration with the copied parent was refused (ATTACH/childreg checks that)
+        'graphite2::Slot::attachTo': {'graphite2::Segment::freeSlot', 'graphite2::Slot::setAttr', '(anonymous namespace)::put_copy', '(anonymous namespace)::direct_run'},
         'graphite2::Slot::firstChild': {'graphite2::Segment::freeSlot', '(anonymous namespace)::put_copy', '(anonymous namespace)::direct_run'},
         'graphite2::Slot::nextSibling': {'graphite2::Slot::removeChild', '(anonymous namespace)::put_copy', '(anonymous namespace)::direct_run'},
         'graphite2::Slot::child': {'graphite2::Segment::appendSlot', 'graphite2::Slot::setAttr', '(anonymous namespace)::put_copy', '(anonymous namespace)::direct_run'},
@@ -122,6 +123,92 @@ def attach(run, fx):
     else:
         run.violated('ATTACH', 'old parent detached first', sa.loc(e), 're-attaching a slot no longer detaches it from its previous parent on every path: '
                      'it would occur in two sibling chains')
+
+
+def childreg(run, fx, vm):
+    """a slot's parent link and the parent's child list must be set together.  `parent->child(s)` REFUSES (returns false) when
+    parent == s; wherever a slot ends up with a non-null parent link and is then registered with child(), a refusal must not be
+    ignored: the result is tested and the refusing outcome clears the link (attachTo(NULL)) or never sets it."""
+    sites = []
+    for fn in list(fx.all_fns()) + [h for h in vm.handlers.values()]:
+        if fn.q.endswith('direct_run'):
+            continue                      # the handlers are read through the call-threaded driver; C07 DRIVERS ties the two together
+        for e in calls_in(fn, 'graphite2::Slot::child'):
+            if not e.get('args'):
+                continue
+            a = fn.strip_all_casts(e['args'][0])
+            if a.get('v') == 0 or a['k'] in ('CXXNullPtrLiteralExpr', 'GNUNullExpr'):
+                continue
+            if (fn.file, e['ln']) in [(f.file, x['ln']) for f, x in sites]:
+                continue                  # the same source line seen through both interpreter drivers
+            sites.append((fn, e))
+    if len(sites) < 2:
+        run.broken('ATTACH', 'child() registrations', 'expected at least 2 registrations Slot::child(non-null), found %d' % len(sites))
+        return
+    for fn, e in sites:
+        inst = 'refused child() registration is honoured in %s' % fn.q
+        is_cond = any((b.get('term') or {}).get('cond') == e['i'] for b in fn.blocks.values())
+        if fn.is_root(e['i']) and not is_cond:
+            run.violated('ATTACH', inst, fn.loc(e), 'the result of %s is discarded: Slot::child refuses to register a slot as its own child, so when the slot\'s parent link '
+                         'already names itself (PUT_COPY from a scratch copy whose recorded parent is the target slot) the slot stays its own parent -- '
+                         'gr_slot_attached_to never reaches a base' % fn.render(e))
+            continue
+        # on the refusing outcome no attachTo(non-null) may follow, or attachTo(NULL) must follow on every path
+        edges = dom.edges_with(fn, lambda f: 'child(' in f[0] and f[1] == '==' and f[2] == '0')
+        ats = calls_in(fn, 'graphite2::Slot::attachTo')
+        nulls = [x for x in ats if fn.strip_all_casts(x['args'][0]).get('v') == 0 or fn.strip_all_casts(x['args'][0])['k'] in ('CXXNullPtrLiteralExpr', 'GNUNullExpr')]
+        nonnull = [x for x in ats if x not in nulls]
+        ok = True
+        why = 'tested; '
+        for (b, idx) in edges:
+            s0 = fn.blocks[b]['succ'][idx]
+            seen, st, hit_nonnull = set(), [s0], False
+            while st:
+                x = st.pop()
+                if x in seen or x is None:
+                    continue
+                seen.add(x)
+                if any(fn.block_of[n['i']] == x for n in nulls):
+                    continue
+                if any(fn.block_of[n['i']] == x for n in nonnull):
+                    hit_nonnull = True
+                st.extend(fn.succs(x))
+            if hit_nonnull:
+                ok = False
+        # the parent link may already be set before the registration (whole-slot copy): then the refusing edge must clear it
+        pre_set = any(c.get('fq') == 'memcpy' for c in calls_in(fn))
+        if pre_set:
+            if nonnull:
+                ok = False
+            for x in nulls:
+                if not any('child(' in f[0] and f[1] == '==' and f[2] == '0' for f in dom.facts_at(fn, x['i'])):
+                    ok = False            # the link may only be cleared on the refusing outcome: elsewhere the slot is in its parent's list
+            for (b, idx) in edges:
+                s0 = fn.blocks[b]['succ'][idx]
+                if not nulls or not _all_paths_through(fn, s0, {fn.block_of[n['i']] for n in nulls}):
+                    ok = False
+            why += 'the refusing outcome clears the copied parent link'
+        else:
+            why += 'the parent link is only set on the accepting outcome'
+        if not edges:
+            ok = False
+        if ok:
+            run.held('ATTACH', inst, fn.loc(e), why)
+        else:
+            run.violated('ATTACH', inst, fn.loc(e), 'when %s refuses the registration the slot can still end up with a non-null parent link that no child list contains' % fn.render(e))
+
+
+def _all_paths_through(fn, start, pass_blocks):
+    seen, st = set(), [start]
+    while st:
+        b = st.pop()
+        if b in seen or b in pass_blocks:
+            continue
+        seen.add(b)
+        if b == fn.exit:
+            return False
+        st.extend(fn.succs(b))
+    return True
 
 
 def _dedupe(tw):
@@ -458,6 +545,7 @@ def run(run):
     fx = vm.fx
     treewriters(run, fx)
     attach(run, fx)
+    childreg(run, fx, vm)
     listops(run, fx)
     detach(run, vm)
     basechain(run, fx)
